@@ -1338,3 +1338,23 @@ func ruleActivityEventsArePublishedWithAFreshRequest(c *eng.Ctx) {
 		c.Check(fresh, "every activity event is published with a request of its own", c.Pos(pc.(ssa.Instruction)), "publishInternal(ctx, &client.PublishRequest{…}) built in the call", "publishActivityEvent hands publishInternal a request it did not build in this call ("+eng.Describe(req)+"): the publish path fills the request's ack inbox in when it is empty, so a kept request makes every event wait on the first event's inbox — a late ack for one event completes the publish of the next, whose index is then recorded although the event was never stored")
 	}
 }
+
+// ruleServerKeepsTheCallersConfig (R19.5 extension, programmatic route): an embedding application switches telemetry off by
+// setting Config.Telemetry.Enabled = false on the Config it handed to New, any time before Start. That reaches Start only
+// because the server keeps the caller's object: with a private copy taken in New the later opt-out is never seen.
+func ruleServerKeepsTheCallersConfig(c *eng.Ctx) {
+	fn := c.Fn("server.New")
+	if fn == nil {
+		return
+	}
+	n := 0
+	for _, st := range eng.FieldStores(fn, func(fa *ssa.FieldAddr) bool {
+		return eng.FieldNameOf(fa) == "config" && strings.HasSuffix(fa.X.Type().String(), "server.Server")
+	}) {
+		n++
+		c.Check(eng.Param("config")(eng.Strip(st.Val)), "the server reads the Config object its caller holds", c.Pos(st), "Server.config = config (the caller's pointer)", "server.New keeps "+eng.Describe(st.Val)+" instead of the caller's Config: an application that creates the server and then sets Telemetry.Enabled = false on its Config before Start is reported on all the same")
+	}
+	if n == 0 {
+		c.Unresolved("the store of Server.config in server.New")
+	}
+}
